@@ -775,3 +775,72 @@ def family_G(seed: int, count: int, *, depth=2) -> List[Spec]:
         sp.missing = ["gmissing"]
         out.append(sp)
     return out
+
+
+# ---------------------------------------------------------------------------------------
+# Family A: self-feeding chains (C13)
+
+def family_A(seed: int, count: int) -> List[Spec]:
+    rng = random.Random(seed)
+    out = []
+    kinds = ["always_ring", "always_chain", "self_raise", "raise_ring", "done_ring", "done_chain", "raise_mixed",
+             "exit_raise"]
+    for i in range(count):
+        kind = kinds[i % len(kinds)]
+        M = rng.choice([2, 3, 5])
+        L = rng.choice([M - 1, M, M + 1, 2])
+        L = max(L, 1)
+        at_start = rng.random() < 0.4
+        st: Dict[str, Any] = {}
+        raise_ = lambda e: {"type": "xstate.raise", "params": {"event": e}}
+        ring0 = "s0"
+        if kind in ("always_ring", "always_chain"):
+            n = max(L, 2) if kind == "always_ring" else L + 1
+            for j in range(n):
+                c: Dict[str, Any] = {"entry": [f"en:m.s{j}"], "exit": [f"ex:m.s{j}"]}
+                last = j == n - 1
+                if kind == "always_ring" or not last:
+                    c["always"] = {"target": f"#m.s{(j + 1) % n}", "actions": [f"tr:al{j}"]}
+                c["on"] = {"PING": {"actions": [f"tr:ping{j}"]}}
+                st[f"s{j}"] = c
+        elif kind == "self_raise":
+            st["s0"] = {"entry": ["en:m.s0"], "exit": ["ex:m.s0"],
+                        "on": {"E": {"actions": ["tr:e", raise_("E")]}, "PING": {"actions": ["tr:ping"]}}}
+        elif kind == "raise_ring":
+            n = max(L, 2)
+            st["s0"] = {"entry": ["en:m.s0"], "exit": ["ex:m.s0"], "on": {"PING": {"actions": ["tr:ping"]}}}
+            for j in range(n):
+                st["s0"]["on"][f"R{j}"] = {"actions": [f"tr:r{j}", raise_(f"R{(j + 1) % n}")]}
+            st["s0"]["on"]["E"] = {"actions": ["tr:e", raise_("R0")]}
+        elif kind in ("done_ring", "done_chain"):
+            n = 1 if kind == "done_ring" else L + 1
+            for j in range(n):
+                nxt = f"#m.s{(j + 1) % n}" if kind == "done_ring" else (f"#m.s{j + 1}" if j < n - 1 else None)
+                c = {"initial": "f", "entry": [f"en:m.s{j}"], "exit": [f"ex:m.s{j}"],
+                     "states": {"f": {"type": "final", "entry": [f"en:m.s{j}.f"], "exit": [f"ex:m.s{j}.f"]}},
+                     "on": {"PING": {"actions": [f"tr:ping{j}"]}}}
+                if nxt:
+                    c["onDone"] = {"target": nxt, "actions": [f"tr:dn{j}"], "reenter": True}
+                st[f"s{j}"] = c
+        elif kind == "raise_mixed":
+            st["s0"] = {"entry": ["en:m.s0"], "exit": ["ex:m.s0"],
+                        "on": {"E": {"actions": ["tr:e", raise_("N"), raise_("E")]}, "N": {"actions": ["tr:n"]},
+                               "PING": {"actions": ["tr:ping"]}}}
+        elif kind == "exit_raise":
+            st["s0"] = {"entry": ["en:m.s0"], "exit": ["ex:m.s0", raise_("E")],
+                        "on": {"E": {"target": "#m.s0", "reenter": True, "actions": ["tr:e"]},
+                               "PING": {"actions": ["tr:ping"]}}}
+        states: Dict[str, Any] = {}
+        if at_start or kind in ("self_raise", "raise_ring", "raise_mixed", "exit_raise"):
+            initial = ring0
+        else:
+            initial = "idle"
+            states["idle"] = {"entry": ["en:m.idle"], "exit": ["ex:m.idle"], "on": {"GO": {"target": "#m.s0", "actions": ["tr:go"]},
+                                                                                    "PING": {"actions": ["tr:pingidle"]}}}
+        states.update(st)
+        if kind == "self_raise" and at_start:
+            states["s0"]["entry"] = states["s0"]["entry"] + [raise_("E")]
+        cfg = {"id": "m", "initial": initial, "maxIterations": M, "entry": ["en:m"], "exit": ["ex:m"], "states": states}
+        sp = Spec(cfg, "A", f"A-{seed}-{i}-{kind}-M{M}-L{L}")
+        out.append(sp)
+    return out
